@@ -351,6 +351,9 @@ struct FileCfg {
     ns: usize,
     vlen: usize,
     wset: usize,
+    /// order in which a model's state trees (and, matching them, its PDF blocks) are listed in the file:
+    /// 0 ascending state numbers, 1 descending, 2 rotated by one
+    order: usize,
 }
 
 fn build_file(fc: &FileCfg, pool: &[(String, Vec<String>)], all_shapes: &[TreeSpec]) -> VoiceSpec {
@@ -372,10 +375,18 @@ fn build_file(fc: &FileCfg, pool: &[(String, Vec<String>)], all_shapes: &[TreeSp
             prefix: prefix.into(),
             questions: pool.to_vec(),
             quoted: fc.quoted,
-            trees: states
+            trees: {
+                let mut listed: Vec<(usize, usize)> = states.iter().cloned().enumerate().collect();
+                match fc.order {
+                    1 => listed.reverse(),
+                    2 => listed.rotate_left(1),
+                    _ => {}
+                }
+                listed
+            }
                 .iter()
-                .enumerate()
                 .map(|(si, st)| {
+                    let (si, st) = (*si, st);
                     let (t, nl) = mk_tree(if si == 0 { rot0 } else { rot0 + si });
                     let pdfs = (1..=nl)
                         .map(|leaf| {
@@ -412,9 +423,91 @@ fn spec_lookup<'a>(m: &'a ModelSpec, state: usize, text: &str) -> (usize, &'a Ve
     (leaf, &pdfs[leaf - 1])
 }
 
+/// Candidate replacement values per field group: distinct corpus values, phoneme symbols from the voice's own
+/// patterns, and numeric variants (each number of three representative values replaced by 1..=49).
+fn group_candidates(phon: &BTreeSet<String>) -> Vec<Vec<String>> {
+    let corpus = labels::corpus();
+    let mut distinct: Vec<BTreeSet<String>> = vec![BTreeSet::new(); 16];
+    for l in &corpus {
+        for (i, g) in labels::groups(l).into_iter().enumerate() {
+            distinct[i].insert(g);
+        }
+    }
+    for p in phon {
+        for slot in distinct.iter_mut().take(5) {
+            slot.insert(p.clone());
+        }
+    }
+    for gi in 5..16 {
+        let reps: Vec<String> = distinct[gi].iter().filter(|v| v.chars().any(|c| c.is_ascii_digit())).step_by((distinct[gi].len() / 3).max(1)).take(3).cloned().collect();
+        for r in reps {
+            let b = r.as_bytes();
+            let mut i = 0;
+            while i < b.len() {
+                if b[i].is_ascii_digit() {
+                    let st = i;
+                    while i < b.len() && b[i].is_ascii_digit() {
+                        i += 1;
+                    }
+                    let width = i - st;
+                    for n in 1..=49u32 {
+                        let num = if width == 2 && r[st..i].starts_with('0') { format!("{:02}", n) } else { n.to_string() };
+                        distinct[gi].insert(format!("{}{}{}", &r[..st], num, &r[i..]));
+                    }
+                } else {
+                    i += 1;
+                }
+            }
+        }
+    }
+    distinct.into_iter().map(|s| s.into_iter().collect()).collect()
+}
+
+/// Build a label that follows `path` (question, wanted answer) in the reader's tree: start from a base label and
+/// change one field group at a time until every question on the path answers as wanted. The result is just one
+/// more input: it is checked by both oracles like any other label.
+fn construct_label(path: &[(String, bool)], questions: &HashMap<String, Vec<String>>, bases: &[String], cand: &[Vec<String>]) -> Option<LabelCase> {
+    let sat = |i: usize, text: &str| any_glob(&questions[&path[i].0], text) == path[i].1;
+    'base: for base in bases {
+        let mut text = base.clone();
+        for i in 0..path.len() {
+            if sat(i, &text) {
+                continue;
+            }
+            let g0 = labels::groups(&text);
+            let mut found = None;
+            'search: for gi in 0..16 {
+                for v in &cand[gi] {
+                    if *v == g0[gi] {
+                        continue;
+                    }
+                    let mut g = g0.clone();
+                    g[gi] = v.clone();
+                    let t2 = labels::join(&g);
+                    if sat(i, &t2) && (0..i).all(|j| sat(j, &t2)) {
+                        found = Some(t2);
+                        break 'search;
+                    }
+                }
+            }
+            match found {
+                Some(t2) => text = t2,
+                None => continue 'base,
+            }
+        }
+        if let Ok(label) = text.parse::<jlabel::Label>() {
+            let ser = label.to_string();
+            if (0..path.len()).all(|i| sat(i, &ser)) {
+                return Some(LabelCase { text: ser, label });
+            }
+        }
+    }
+    None
+}
+
 pub fn run(tier: Tier) -> i32 {
     let rep = Report::new("C04", tier, "model_checking");
-    rep.set_rule("SCOPE: (a) bundled voice: every model (duration, 3 streams x 5 states, 2 GV) x every label of the label space (corpus + one-group recombinations of the cover set + every distinct corpus value of every field group in 2-4 base labels + typed sweeps of every numeric field over 0..N + phoneme symbols from the voice's own patterns) vs an independent reader of the file + HTS wildcard matcher, bit-exact on means/variances/voicing weight and equal on tree/PDF index; (b) every distinct question of the bundled voice x the label space: crate matcher vs wildcard oracle; (c) generated files: all binary tree shapes with <= 3 internal nodes x 3 leaf numberings x quoted/unquoted x question triples from a pool of real questions (incl. the regex-fallback ones) x layout deviations (states, streams, vector length, window set), checked against both the independent reader and the generator's spec (sentinel floats); (d) metadata, options, windows, engine defaults vs the header; distinct = (file, model, state, label); non-trivial = lookups through a tree with more than one leaf");
+    rep.set_rule("SCOPE: (a) bundled voice: every model (duration, 3 streams x 5 states, 2 GV) x every label of the label space (corpus + one-group recombinations of the cover set + every distinct corpus value of every field group in 2-4 base labels + typed sweeps of every numeric field over 0..N + phoneme symbols from the voice's own patterns) vs an independent reader of the file + HTS wildcard matcher, bit-exact on means/variances/voicing weight and equal on tree/PDF index; (b) every distinct question of the bundled voice x the label space: crate matcher vs wildcard oracle; (c) generated files: all binary tree shapes with <= 3 internal nodes x 3 leaf numberings x quoted/unquoted x question triples from a pool of real questions (incl. the regex-fallback ones) x layout deviations (states, streams, vector length, window set, order in which the state trees are listed), checked against both the independent reader and the generator's spec (sentinel floats); (d) metadata, options, windows, engine defaults vs the header; distinct = (file, model, state, label); non-trivial = lookups through a tree with more than one leaf");
     rep.assume("labels limited to the stated label space; generated trees have at most 3 internal nodes; the label text matched by the oracle is the label's own serialisation");
     // ---------- question pool from the bundled voice ----------
     let v0b = v0_bytes();
@@ -496,6 +589,59 @@ pub fn run(tier: Tier) -> i32 {
         rep.eval((space.len() * 18) as u64);
         check_engine_defaults(&rep, &name, &bytes);
     }
+    // ---------- (e) path construction: labels built to reach the leaves the label space missed ----------
+    {
+        let before: BTreeMap<String, BTreeSet<(usize, usize)>> = reached.lock().unwrap().clone();
+        let cand = group_candidates(&phon);
+        let corpus = labels::corpus();
+        let bases: Vec<String> = vec![corpus[1].clone(), corpus[41].clone(), corpus[700].clone(), corpus[0].clone(), corpus[corpus.len() - 1].clone()];
+        // (model name, reader model) in the order used by check_voice_against_reader
+        let mut named: Vec<(String, &RModel)> = vec![("duration".to_string(), &models_r[0])];
+        let mut mi = 1;
+        for (i, sname) in rv.streams().iter().enumerate() {
+            named.push((format!("stream{} {}", i, sname), &models_r[mi]));
+            mi += 1;
+            if rv.snum("USE_GV", sname) == 1 {
+                named.push((format!("gv{} {}", i, sname), &models_r[mi]));
+                mi += 1;
+            }
+        }
+        let mut todo: Vec<(usize, usize, usize, Vec<(String, bool)>)> = Vec::new(); // (model idx, state, leaf, path)
+        let mut total_leaves = 0usize;
+        for (ni, (name, rm)) in named.iter().enumerate() {
+            let have = before.get(name).cloned().unwrap_or_default();
+            for (ti, t) in rm.trees.iter().enumerate() {
+                for (leaf, path) in rm.paths(ti) {
+                    total_leaves += 1;
+                    if !have.contains(&(t.state, leaf)) {
+                        todo.push((ni, t.state, leaf, path));
+                    }
+                }
+            }
+        }
+        let budget = tier.pick(usize::MAX, usize::MAX);
+        let stride = (todo.len() / budget.max(1)).max(1);
+        let picked: Vec<&(usize, usize, usize, Vec<(String, bool)>)> = todo.iter().skip(seed() as usize % stride).step_by(stride).collect();
+        let built: Mutex<Vec<LabelCase>> = Mutex::new(Vec::new());
+        let failed = AtomicU64::new(0);
+        par_for(picked.len(), 1, |i| {
+            let (ni, _st, _leaf, path) = picked[i];
+            match construct_label(path, &named[*ni].1.questions, &bases, &cand) {
+                Some(lc) => built.lock().unwrap().push(lc),
+                None => {
+                    failed.fetch_add(1, Ordering::Relaxed);
+                }
+            }
+        });
+        let built = built.into_inner().unwrap();
+        rep.eval(built.len() as u64 * 18);
+        if !built.is_empty() {
+            check_voice_against_reader(&rep, "V0", v0b, &pk(0), &built, &reached);
+        }
+        let after: usize = reached.lock().unwrap().values().map(|v| v.len()).sum();
+        let before_n: usize = before.values().map(|v| v.len()).sum();
+        rep.note("path_construction", json!({"leaves_total": total_leaves, "reached_by_label_space": before_n, "unreached": todo.len(), "attempted": picked.len(), "labels_built": built.len(), "no_label_found": failed.load(Ordering::Relaxed), "reached_after": after}));
+    }
     {
         let g = reached.lock().unwrap();
         let mut cov = serde_json::Map::new();
@@ -527,7 +673,7 @@ pub fn run(tier: Tier) -> i32 {
         .collect();
     let all_shapes: Vec<TreeSpec> = (0..=3).flat_map(shapes).collect();
     let mut files: Vec<FileCfg> = Vec::new();
-    let default = FileCfg { shape: 0, assign: 0, quoted: true, qtriple: [0, 1, 2], nstate: 2, ns: 3, vlen: 2, wset: 2 };
+    let default = FileCfg { shape: 0, assign: 0, quoted: true, qtriple: [0, 1, 2], nstate: 2, ns: 3, vlen: 2, wset: 2, order: 0 };
     let mut triples: Vec<[usize; 3]> = Vec::new();
     for a in 0..pool.len() {
         for b in 0..pool.len() {
@@ -576,6 +722,12 @@ pub fn run(tier: Tier) -> i32 {
                             continue;
                         }
                         files.push(FileCfg { shape, assign, quoted, qtriple: *t, nstate: l.0, ns: l.1, vlen: l.2, wset: l.3, ..default.clone() });
+                        // the same file with its state trees listed in descending / rotated order (states >= 2 only)
+                        if l.0 >= 2 && (ti == 0 || li == 0) && (shape + assign) % 2 == 0 {
+                            for order in [1usize, 2] {
+                                files.push(FileCfg { shape, assign, quoted, qtriple: *t, nstate: if order == 2 { 5 } else { l.0 }, ns: l.1, vlen: l.2, wset: l.3, order });
+                            }
+                        }
                     }
                 }
             }
